@@ -50,7 +50,9 @@ fn cx_fn(ctx: &Ctx, r: &mut Report) {
         ("'a, 'b: 'a", &[], &["'a", "'b"]),
     ];
     // (name, needs generic D, param text, declared bounds, by value, concrete self type, no_deps)
-    let deps: [(&str, bool, &str, &[&str], bool, Option<&str>, bool); 10] = [
+    let deps: [(&str, bool, &str, &[&str], bool, Option<&str>, bool); 12] = [
+        ("ref-impl-paren", false, "deps: (&impl A)", &["A"], false, None, false),
+        ("ref-generic-paren", true, "deps: ((&D))", &["A"], false, None, false),
         ("ref-generic-where", true, "deps: &D", &["A", "B < u8 >"], false, None, false),
         ("ref-generic-where-only", true, "deps: &D", &["B < u8 >", "A"], false, None, false),
         ("ref-generic", true, "deps: &D", &[], false, None, false),
